@@ -394,9 +394,15 @@ struct Layout {
 }
 
 fn layout() -> std::io::Result<Layout> {
+    layout_with(false)
+}
+
+/// `spaced`: the temporary directory (in which scrut keeps the state file) has a name with a
+/// blank and a quote in it
+fn layout_with(spaced: bool) -> std::io::Result<Layout> {
     let root = tempfile::Builder::new().prefix("vr.").tempdir_in(scratch_root())?;
     let work = root.path().join("base");
-    let tmp = root.path().join("tmp");
+    let tmp = root.path().join(if spaced { "t m'p" } else { "tmp" });
     std::fs::create_dir_all(work.join("d 1"))?;
     std::fs::create_dir_all(work.join("d2/inner"))?;
     std::fs::create_dir_all(work.join("d2/in ner"))?;
@@ -417,7 +423,9 @@ fn normalise(out: &[u8], base: &Path) -> String {
 type Trace = Vec<(String, String)>;
 
 fn run_through_scrut(h: &History) -> Result<Trace, String> {
-    let l = layout().map_err(|e| e.to_string())?;
+    // (a function of the history, so that a replay does the same)
+    let spaced = h.id.bytes().map(|b| b as u32).sum::<u32>() % 2 == 1;
+    let l = layout_with(spaced).map_err(|e| e.to_string())?;
     let mut env: BTreeMap<String, String> = BTreeMap::new();
     env.insert("VS_BASE".into(), l.work.to_string_lossy().into_owned());
     env.insert("HOME".into(), "/nonexistent-home".into());
